@@ -93,6 +93,10 @@ struct array {
 
         owning_data_t & operator=(const owning_data_t & o)
         {
+            if (this == &o) {
+                return *this;
+            }
+
             m_size = o.m_size;
             m_ptr = std::make_unique<vector_t[]>(m_size);
 
